@@ -301,6 +301,14 @@ func Replay(path string) int {
 		fmt.Fprintln(os.Stderr, "unknown replay artefact")
 		return 2
 	}
+	if os.Getenv("VERIF_EXPAND") != "" {
+		res := hx.Expand(hx.Job{Scope: art.Scope, Tier: art.Tier, Idx: art.Idx, Prog: art.Prog})
+		fmt.Println("err:", res.Err)
+		for _, s := range res.Succ {
+			fmt.Printf("%-40s key=%s end=%v fail=%v notes=%v obs=%s\n", s.Op.String(), s.Key, s.End, s.Fail, s.Notes, s.Obs)
+		}
+		return 0
+	}
 	res := hx.Expand(hx.Job{Scope: art.Scope, Tier: art.Tier, Idx: art.Idx, Prog: art.Prog, Mode: "run"})
 	hx.CleanWorkDir()
 	if res.Err != "" {
